@@ -82,6 +82,10 @@ var NamedTypes = []TypeInfo{
 	{"NUintptr", Unsigned, int(8 * unsafe.Sizeof(uintptr(0))), true},
 	{"NFloat32", Float, 32, true},
 	{"NFloat64", Float, 64, true},
+	// function-local types that are all named "Sample" (see anybuf.go)
+	{"LSample16", Signed, 16, true},
+	{"LSample64", Signed, 64, true},
+	{"LSampleF32", Float, 32, true},
 }
 
 // Info returns the TypeInfo for a type name (built-in or named).
